@@ -183,11 +183,21 @@ class HistogramCollection(Container[Histogram1D], ObjectWithBinning):
             )
             for item in a_dict["histograms"]
         )
-        return HistogramCollection(*histograms)
+        kwargs: Dict[str, Any] = {
+            "name": a_dict.get("name"),
+            "title": a_dict.get("title"),
+        }
+        histogram_list = list(histograms)
+        if not histogram_list and "binning" in a_dict:
+            kwargs["binning"] = BinningBase.from_dict(dict(a_dict["binning"]))
+        return HistogramCollection(*histogram_list, **kwargs)
 
     def to_dict(self) -> Dict[str, Any]:
         return {
             "histogram_type": "histogram_collection",
+            "name": self.name,
+            "title": self.title,
+            "binning": self.binning.to_dict(),
             "histograms": [h.to_dict() for h in self.histograms],
         }
 
